@@ -259,3 +259,12 @@ Definition gptr_set {A} (isnil : bool) (x : A) : res A := if isnil then Panic 5 
    err (Model/FastCodec.v relabel) *)
 Definition gerr_prepend (k : Z) (e : gerror) : res gerror :=
   match e with None => Panic 5 | Some c => Ok (Some (k + c)) end.
+
+(* =====================================================================================
+   Phase 3 of the translator: the write / encode side
+   ===================================================================================== *)
+
+(* f(p[off:], ...) for a callee f that stores into its parameter: the callee works on the tail
+   [drop off p] (after the bounds check of the slice expression, gslice_from) and cannot change
+   its length; its final contents [sub] replace the tail of p *)
+Definition gsplice (buf : bytes) (off : Z) (sub : bytes) : bytes := (take (Z.to_N off) buf ++ sub)%list.
